@@ -161,7 +161,7 @@ Proof.
     destruct (IH Hwmore gs1 rest (Some LR) fuel ln1 Hlay2 ltac:(lia)) as (gs2 & prev2 & ln2 & Hpa & Hlay3 & Hlen2).
     exists gs2, prev2, ln2. split; [|split; [exact Hlay3|rewrite weave_length; lia]].
     cbn [length parse_args]. rewrite weave_cons.
-    rewrite (optional_lbrace (gap_hd gs) _ ln Hsp). cbn [bind].
+    rewrite (required_lbrace (gap_hd gs) _ ln Hsp). cbn [bind].
     rewrite Hpg. cbn [bind]. rewrite Hpa. reflexivity.
 Qed.
 
